@@ -83,7 +83,7 @@ func init() {
 		Level:       "fault_enumeration",
 		Workers:     16,
 		CaseTimeout: 180e9,
-		Rule: fmt.Sprintf("%d scenario variants (counter / list / document / map; 3 clients: create + two subscribers, or all three entering with subscribe-or-create plus a fourth client whose Create of the existing key must stay refused and must never yield a second datatype; pushes of 1-3 operations, a transaction, pull-only syncs). Phase 1 profiles the fault-free run and numbers every database command issued while serving each request, including those of the background snapshot goroutine. Phase 2 re-runs the scenario once per command index k and per fault kind: fail(k) = that command answers {ok:0}; sever(k) = the connection is closed before executing it and the server incarnation is dead from then on; sever-after(k) = it is executed, the reply is lost and the incarnation is dead; for sever kinds a new incarnation is started on the same store; the script continues and all clients retry to quiescence. Process cases (quick: a sample of command indexes of one variant; thorough: every command index of two variants): the server is the repository's own binary running as a child process behind the grpc front, clients are SDK clients calling Client.Sync() over real grpc, and the server dies by SIGKILL when the stand-in sees command k (before executing it / after executing it with the reply lost); a new process starts on the same store (same ports) and everybody retries. Collection cases: every database command issued while serving CreateCollection / ResetCollection of a second collection is the fault point in turn (same three kinds); an acknowledged creation has stored the collection and clients can enter it at once, an acknowledged reset has removed every datatype / operation / snapshot / client document of the collection and its user collection, a refused one succeeds when retried; the bystander collection's documents never change; afterwards new clients create the same key again and converge. Oracle: the faulted call returns (error or not) - no panic, no hang; a server process that ends by itself is a violation; every operation whose acknowledgement a client had applied is stored; store invariants of C06 hold after recovery (operation documents beyond the recorded end of log are reported); retries reach quiescence; every operation issued on a subscribed datatype is stored exactly once and all replicas, the server's rebuild and the replay of the stored log agree (i.e. the state is the one determined by the issued operations, as if no failure had happened); ",
+		Rule: fmt.Sprintf("%d scenario variants (counter / list / document / map; 3 clients: create + two subscribers, or all three entering with subscribe-or-create plus a fourth client whose Create of the existing key must stay refused and must never yield a second datatype; pushes of 1-3 operations, a transaction, pull-only syncs). Phase 1 profiles the fault-free run and numbers every database command issued while serving each request, including those of the background snapshot goroutine. Phase 2 re-runs the scenario once per command index k and per fault kind: fail(k) = that command answers {ok:0}; sever(k) = the connection is closed before executing it and the server incarnation is dead from then on; sever-after(k) = it is executed, the reply is lost and the incarnation is dead; for sever kinds a new incarnation is started on the same store; the script continues and all clients retry to quiescence. Process cases (quick: a sample of command indexes of one variant; thorough: every command index of two variants): the server is the repository's own binary running as a child process behind the grpc front, clients are SDK clients calling Client.Sync() over real grpc, and the server dies by SIGKILL when the stand-in sees command k (before executing it / after executing it with the reply lost); a new process starts on the same store (same ports) and everybody retries. Collection cases: every database command issued while serving CreateCollection / ResetCollection of a second collection is the fault point in turn (same three kinds); an acknowledged creation has stored the collection and clients can enter it at once, an acknowledged reset has removed every datatype / operation / snapshot / client document of the collection and its user collection, a refused one succeeds when retried; the bystander collection's documents never change; afterwards new clients create the same key again and converge. After the recovery one more push is made: once its background snapshot update has run, the user-visible document records the end of the log and equals its replay (a fault inside an earlier background update may leave it behind for a while, not for good). Oracle: the faulted call returns (error or not) - no panic, no hang; a server process that ends by itself is a violation; every operation whose acknowledgement a client had applied is stored; store invariants of C06 hold after recovery (operation documents beyond the recorded end of log are reported); retries reach quiescence; every operation issued on a subscribed datatype is stored exactly once and all replicas, the server's rebuild and the replay of the stored log agree (i.e. the state is the one determined by the issued operations, as if no failure had happened); ",
 			len(c08Variants)) +
 			"non-trivial = the fault hit a write command (insert / update / delete / findAndModify) or fell between the two writes of one commit; distinct = (variant, command index, fault kind)",
 		Assumptions: []string{
